@@ -368,6 +368,25 @@ class item : public reference<T>, public identifier
 public:
 	item(T *ref = 0) : reference<T>(ref), identifier(sizeof(identifier) + sizeof(_post))
 	{ }
+	/* trailing identifier data must not be copied as raw member */
+	item(const item &from) : reference<T>(from), identifier(sizeof(identifier) + sizeof(_post))
+	{
+		identifier::operator =(from);
+	}
+	inline item &operator =(const item &from)
+	{
+		reference<T>::operator =(from);
+		identifier::operator =(from);
+		return *this;
+	}
+#if __cplusplus >= 201103L
+	inline item &operator =(item &&from)
+	{
+		reference<T>::operator =(static_cast<reference<T> &&>(from));
+		identifier::operator =(from);
+		return *this;
+	}
+#endif
 	inline item &operator =(const identifier &id)
 	{
 		identifier::operator =(id);
